@@ -379,8 +379,16 @@ def run(ctx):
         run_c15(ctx)
         dynmock_stage(ctx, 200_000 if ctx.tier == "quick" else 4_000_000)
         # provided methods of a user trait that format `self` through Display / Debug supertraits (mock-core)
-        from . import engine_c20
-        return engine_c20.family_stage(ctx, "supertrait", 2000 if ctx.tier == "quick" else 100_000)
+        from . import engine_c20, engine_c
+        engine_c20.family_stage(ctx, "supertrait", 2000 if ctx.tier == "quick" else 100_000)
+        # first delegated calls racing on one shared instance (creation of the internal delegation helper)
+        race, v = engine_c.run_sched(ctx, "c15-helper-race", 4000 if ctx.tier == "quick" else 200_000)
+        engine_c.report(ctx, v, "C15", "helper creation race")
+        ctx.require(race["stats"].get("delegated_calls", 0) > 0, "the helper-race stage made no calls")
+        ctx.coverage["helper_race_stage"] = {"rounds": race["executions"],
+                                             "delegated_calls": race["stats"].get("delegated_calls", 0)}
+        ctx.coverage["evaluations"] += race["executions"]
+        return
     if ctx.prop == "C16":
         run_c16(ctx)
         return dynmock_stage(ctx, 200_000 if ctx.tier == "quick" else 4_000_000)
